@@ -4,6 +4,7 @@ import (
 	"fmt"
 	"go/ast"
 	"go/token"
+	"go/types"
 	"sort"
 	"strings"
 )
@@ -28,7 +29,11 @@ func init() {
 		mutation{"deadline-without-lock", "util/bufconn/bufconn.go", "	p := c.Writer.(*pipe)\n	p.mu.Lock()\n	defer p.mu.Unlock()\n	p.wtimer.Stop()", "	p := c.Writer.(*pipe)\n	p.wtimer.Stop()", "monitor"},
 		mutation{"close-not-propagated", "util/bufconn/bufconn.go", "	err2 := c.Writer.(*pipe).closeWrite()", "	var err2 error", "conn-close"},
 	)
+	mutExtra["reuse-through-helper"] = [2]string{"func (t *QUIC) reuseConnection(", "func keepCachedHelper(kept, redundant *nodeConnection) (*nodeConnection, bool, error) {\n	redundant.quic.CloseWithError(508, wrapReuseError(\"previously cached connection was reused\").Error())\n	return kept, true, nil\n}\n\nfunc (t *QUIC) reuseConnection("}
+	mutExtra["reuse-through-helper-swapped"] = mutExtra["reuse-through-helper"]
 	addSelfTests("C41",
+		mutation{"reuse-through-helper", "overlay/reuse.go", "					// other: cached incoming\n					//    us: cached outgoing\n					fresh.quic.CloseWithError(508, wrapReuseError(\"previously cached connection was reused\").Error())\n					return cache, true, nil", "					// other: cached incoming\n					//    us: cached outgoing\n					return keepCachedHelper(cache, fresh)", "!leaf"},
+		mutation{"reuse-through-helper-swapped", "overlay/reuse.go", "					// other: cached incoming\n					//    us: cached outgoing\n					fresh.quic.CloseWithError(508, wrapReuseError(\"previously cached connection was reused\").Error())\n					return cache, true, nil", "					// other: cached incoming\n					//    us: cached outgoing\n					return keepCachedHelper(fresh, cache)", "leaf"},
 		mutation{"store-on-cached-peer", "overlay/reuse.go", "					// other: cached outgoing\n					//    us:    new incoming\n					return nil, false, wrapReuseError(\"other peer has cached connection while we are handling a new incoming connection\")", "					// other: cached outgoing\n					//    us:    new incoming\n					t.cachedConnections.Store(qKey, fresh)\n					return fresh, false, nil", "joint"},
 		mutation{"both-close-fresh", "overlay/reuse.go", "					// we will let the receiver side close the connection\n					return cache, true, nil", "					// we will let the receiver side close the connection\n					fresh.quic.CloseWithError(508, \"reused\")\n					return cache, true, nil", "joint"},
 		mutation{"closes-cached", "overlay/reuse.go", "					// other: cached incoming\n					//    us: cached outgoing\n					fresh.quic.CloseWithError(508, wrapReuseError(\"previously cached connection was reused\").Error())", "					// other: cached incoming\n					//    us: cached outgoing\n					cache.quic.CloseWithError(508, wrapReuseError(\"previously cached connection was reused\").Error())", "leaf"},
@@ -354,6 +359,8 @@ type reuseLeaf struct {
 	invalid     bool // REJECT built by wrapReuseError
 	pos         token.Pos
 	path        string
+	// a REUSE leaf that hands back something else than the cached connection
+	returnsFreshAsReused bool
 }
 
 type reuseVal struct {
@@ -406,6 +413,137 @@ func runC41(c *Ctx) {
 			return v.dirIn
 		}
 		return false
+	}
+	// leafStmt interprets the effect statements of a leaf (close / store / return) in
+	// function f; roles maps f's parameters to "fresh" / "cache" when f is a helper the
+	// leaf returns through (the role of an argument is decided at the call site, not by
+	// the helper's parameter names). It reports whether the leaf ended (a return).
+	var leafStmt func(f *Fn, st ast.Stmt, roles map[*types.Var]string, leaf *reuseLeaf, depth int) (bool, string)
+	roleOf := func(f *Fn, e ast.Expr, roles map[*types.Var]string) string {
+		if id, ok := ast.Unparen(e).(*ast.Ident); ok {
+			if v := f.varOf(id); v != nil && roles != nil {
+				if r, ok := roles[v]; ok {
+					return r
+				}
+			}
+		}
+		// a selector chain: the role of its root
+		root := ast.Unparen(e)
+		for {
+			se, ok := root.(*ast.SelectorExpr)
+			if !ok {
+				break
+			}
+			root = ast.Unparen(se.X)
+		}
+		if root != ast.Unparen(e) {
+			if id, ok := root.(*ast.Ident); ok {
+				if v := f.varOf(id); v != nil && roles != nil {
+					if r, ok := roles[v]; ok {
+						return r
+					}
+				}
+			}
+		}
+		pv := f.Prov(root)
+		switch {
+		case strings.HasPrefix(pv, "&lit:nodeConnection"):
+			return "fresh"
+		case strings.Contains(pv, ".cachedConnections.Load()#0"):
+			return "cache"
+		}
+		if f == rc && strings.Contains(types_ExprString(root), "fresh") {
+			return "fresh"
+		}
+		return "cache"
+	}
+	leafStmt = func(f *Fn, st ast.Stmt, roles map[*types.Var]string, leaf *reuseLeaf, depth int) (bool, string) {
+		switch x := st.(type) {
+		case *ast.ExprStmt:
+			call, ok := x.X.(*ast.CallExpr)
+			if !ok {
+				return false, "unrecognised statement"
+			}
+			se, _ := call.Fun.(*ast.SelectorExpr)
+			switch {
+			case se != nil && se.Sel.Name == "CloseWithError":
+				if roleOf(f, se.X, roles) == "fresh" {
+					leaf.closesFresh = true
+				} else {
+					leaf.closesCache = true
+				}
+			case se != nil && se.Sel.Name == "Store" && strings.HasSuffix(f.Prov(se.X), ".cachedConnections"):
+				if roleOf(f, call.Args[1], roles) == "fresh" {
+					leaf.kind = "STORE"
+				}
+			default:
+				return false, "unrecognised call " + types_ExprString(call.Fun)
+			}
+			return false, ""
+		case *ast.ReturnStmt:
+			leaf.pos = x.Pos()
+			if len(x.Results) == 1 {
+				// return helper(args...): the helper's body is the rest of the leaf
+				call, ok := ast.Unparen(x.Results[0]).(*ast.CallExpr)
+				if !ok || depth > 2 {
+					return false, "unrecognised return"
+				}
+				o := f.Callee(call)
+				h := f.C.FnOfObj(o)
+				if o == nil || h == nil {
+					return false, "return through an unresolved call " + types_ExprString(call.Fun)
+				}
+				sub := map[*types.Var]string{}
+				i := 0
+				for _, fld := range h.Type.Params.List {
+					for _, nm := range fld.Names {
+						if i < len(call.Args) {
+							if pv, ok := h.Info.Defs[nm].(*types.Var); ok {
+								sub[pv] = roleOf(f, call.Args[i], roles)
+							}
+						}
+						i++
+					}
+				}
+				for _, hs := range h.Body.List {
+					done, why := leafStmt(h, hs, sub, leaf, depth+1)
+					if why != "" {
+						return false, "in helper " + h.Name + ": " + why
+					}
+					if done {
+						leaf.pos = x.Pos()
+						return true, ""
+					}
+				}
+				return false, "helper " + h.Name + " falls off its end"
+			}
+			if len(x.Results) != 3 {
+				return false, "unrecognised return"
+			}
+			reused, _ := f.ConstVal(x.Results[1])
+			switch {
+			case !isNilIdent(f.Info, x.Results[2]):
+				leaf.kind = "REJECT"
+				if call, ok := x.Results[2].(*ast.CallExpr); ok && f.IsCall(call, "overlay.wrapReuseError") {
+					leaf.invalid = true
+				}
+			case reused == "true":
+				if leaf.kind == "STORE" {
+					return false, "stores and reports reuse"
+				}
+				leaf.kind = "REUSE"
+				// the connection handed back as "reused" is the cached one
+				if roleOf(f, x.Results[0], roles) != "cache" {
+					leaf.returnsFreshAsReused = true
+				}
+			default:
+				if leaf.kind != "STORE" {
+					return false, "returns a fresh connection without storing it"
+				}
+			}
+			return true, ""
+		}
+		return false, fmt.Sprintf("unrecognised statement %T", st)
 	}
 	eval = func(stmts []ast.Stmt, v reuseVal, rechecked bool, path string) (*reuseLeaf, string) {
 		leaf := &reuseLeaf{path: path}
@@ -462,47 +600,14 @@ func runC41(c *Ctx) {
 					}
 				}
 				return nil, "unrecognised assignment"
-			case *ast.ExprStmt:
-				call, ok := x.X.(*ast.CallExpr)
-				if !ok {
-					return nil, "unrecognised statement"
+			case *ast.ExprStmt, *ast.ReturnStmt:
+				done, why := leafStmt(rc, st, nil, leaf, 0)
+				if why != "" {
+					return nil, why
 				}
-				se, _ := call.Fun.(*ast.SelectorExpr)
-				switch {
-				case se != nil && se.Sel.Name == "CloseWithError":
-					pv := rc.Prov(se.X)
-					if strings.HasPrefix(pv, "&lit:nodeConnection") || strings.Contains(types_ExprString(se.X), "fresh") {
-						leaf.closesFresh = true
-					} else {
-						leaf.closesCache = true
-					}
-				case se != nil && se.Sel.Name == "Store" && strings.HasSuffix(rc.Prov(se.X), ".cachedConnections"):
-					if strings.Contains(types_ExprString(call.Args[1]), "fresh") {
-						leaf.kind = "STORE"
-					}
-				default:
-					return nil, "unrecognised call " + types_ExprString(call.Fun)
+				if done {
+					return leaf, ""
 				}
-			case *ast.ReturnStmt:
-				leaf.pos = x.Pos()
-				reused, _ := rc.ConstVal(x.Results[1])
-				switch {
-				case !isNilIdent(rc.Info, x.Results[2]):
-					leaf.kind = "REJECT"
-					if call, ok := x.Results[2].(*ast.CallExpr); ok && rc.IsCall(call, "overlay.wrapReuseError") {
-						leaf.invalid = true
-					}
-				case reused == "true":
-					if leaf.kind == "STORE" {
-						return nil, "stores and reports reuse"
-					}
-					leaf.kind = "REUSE"
-				default:
-					if leaf.kind != "STORE" {
-						return nil, "returns a fresh connection without storing it"
-					}
-				}
-				return leaf, ""
 			default:
 				return nil, fmt.Sprintf("unrecognised statement %T", st)
 			}
@@ -547,6 +652,9 @@ func runC41(c *Ctx) {
 		seenLeaf[l.pos] = true
 		nleaf++
 		c.Ob("leaf", fmt.Sprintf("reuseConnection#leaf%s:no-close-of-cached", l.path), l.pos, !l.closesCache, "the negotiation never closes the cached connection (it may be in use)")
+		if l.kind == "REUSE" {
+			c.Ob("leaf", fmt.Sprintf("reuseConnection#leaf%s:reuse-returns-the-cached-connection", l.path), l.pos, !l.returnsFreshAsReused, "a leaf that reports reuse hands back the cached connection, not the one it just closed")
+		}
 		if l.kind == "REJECT" {
 			c.Ob("leaf", fmt.Sprintf("reuseConnection#leaf%s:reject-is-invalid-state", l.path), l.pos, l.invalid, "a rejection of a recognised state pair is an 'invalid state' error (the dialer's retry predicate and the acceptor's log filter look for it)")
 		}
